@@ -83,6 +83,18 @@ Proof.
   intros H. specialize (H 20 wit_cpar_defs wit_cpar_inputs eq_refl eq_refl). vm_compute in H. discriminate.
 Qed.
 
+(* v = func(){0}  f = func(){catch(v+1).err}  f()  v = 1  f()   -> true again (cache off: false): reading a function-valued
+   root binding is not a miss even when it is not called; same root cause as the redefined callee. *)
+Definition wit_fread_defs : list fdef :=
+  [ mkDef [107;48]%N None [] (ELit (VInt 0));
+    mkDef [107;49]%N None [] (ECatchErr (EBin OAdd (EVar [118]%N) (ELit (VInt 1)))) ].
+Definition wit_fread_inputs : list expr :=
+  [ EAssign [118]%N (EFun 0); EAssign [102]%N (EFun 1); ECall (EVar [102]%N) []; EAssign [118]%N (ELit (VInt 1)); ECall (EVar [102]%N) [] ].
+Theorem C04_refuted_function_binding_read_then_rebound : ~ cache_unobservable_nolog.
+Proof.
+  intros H. specialize (H 20 wit_fread_defs wit_fread_inputs eq_refl eq_refl). vm_compute in H. discriminate.
+Qed.
+
 (* ---------------------------------------------------------------- what IS proved, for all histories *)
 
 (* Every cache store happens only when the call's miss counter did not move, the result is not an error (nor
@@ -195,6 +207,7 @@ Print Assumptions C04_refuted_redefined_callee_full.
 Print Assumptions C04_refuted_log_not_replayed.
 Print Assumptions C04_refuted_printed_text_collision.
 Print Assumptions C04_refuted_constant_parameter_then_global.
+Print Assumptions C04_refuted_function_binding_read_then_rebound.
 Print Assumptions cache_store_discipline.
 Print Assumptions cache_store_events_complete.
 Print Assumptions cache_hit_replays_exactly.
